@@ -15,6 +15,8 @@ THEOREMS = [
     "Verif.C04.over_sound",
     "Verif.C04.over_complete",
     "Verif.C04.over_errors",
+    "Verif.C04.over_factors",
+    "Verif.C04.over_unordered_witness",
     "Verif.C04.by_spec",
     "Verif.C04.by_all_full_windows",
     "Verif.C04.by_by",
@@ -527,6 +529,23 @@ def _other_reduce(name):
     return np.min if name == "max" else np.max
 
 
+def _kw(case, **kw):
+    """keyword arguments of a call; a case flagged `defaults` leaves out every argument whose value is the documented
+    default (reduce=np.mean, where="center", method="safe")"""
+    if case.get("defaults"):
+        if case.get("reduce") == "mean":
+            kw.pop("reduce", None)
+        if kw.get("where") == "center":
+            kw.pop("where", None)
+        if kw.get("method") == "safe":
+            kw.pop("method", None)
+    return kw
+
+
+def _rows(ts, seen):
+    return "[" + ";".join(f"{int(t)}|" + ",".join(enc_val(v) for v in w) for t, w in zip(ts, seen)) + "]"
+
+
 def _warm(fn):
     try:
         fn()
@@ -554,8 +573,19 @@ def _call(case):
         else:
             raise ValueError(shape)
         _warm(lambda: s.downsampled_over(arg, reduce=_other_reduce(case["reduce"]), where=case["where"]))
-        r = s.downsampled_over(arg, reduce=np_reduce(case["reduce"]), where=case["where"])
-        return ["ok " + show(r.timestamps, r.data)]
+        r = s.downsampled_over(arg, **_kw(case, reduce=np_reduce(case["reduce"]), where=case["where"]))
+        out = ["ok " + show(r.timestamps, r.data)]
+        if in_model(case):
+            # reduce is an arbitrary callable: record what it is handed
+            seen = []
+
+            def recorder(x, axis=None):
+                seen.append(np.array(x, dtype=float).ravel())
+                return 0.0
+
+            r2 = s.downsampled_over(arg, reduce=recorder, where=case["where"])
+            out.append("ok " + _rows(r2.timestamps, seen) if len(seen) == len(r2.timestamps) else f"length-mismatch {len(seen)}")
+        return out
     if k in ("to", "toby"):
         s = build(case["src"])
         out = []
@@ -563,13 +593,13 @@ def _call(case):
         if k == "toby":
             _warm(lambda: s.downsampled_by(case["k"], reduce=_other_reduce(case["reduce"])))
         try:
-            r = s.downsampled_to(case["freq"], reduce=np_reduce(case["reduce"]), where=case["where"], method=case["method"])
+            r = s.downsampled_to(case["freq"], **_kw(case, reduce=np_reduce(case["reduce"]), where=case["where"], method=case["method"]))
             out.append("ok " + show(r.timestamps, r.data))
         except Exception as e:
             out.append(errname(e))
         if k == "toby":
             try:
-                r = s.downsampled_by(case["k"], reduce=np_reduce(case["reduce"]))
+                r = s.downsampled_by(case["k"], **_kw(case, reduce=np_reduce(case["reduce"])))
                 out.append(f"ok {period_of(r)} " + show(r.timestamps, r.data))
             except Exception as e:
                 out.append(errname(e))
@@ -577,15 +607,28 @@ def _call(case):
     if k == "by":
         s = build(case["src"])
         _warm(lambda: s.downsampled_by(case["k"], reduce=_other_reduce(case["reduce"])))
-        r = s.downsampled_by(case["k"], reduce=np_reduce(case["reduce"]))
-        return [f"ok {period_of(r)} " + show(r.timestamps, r.data)]
+        r = s.downsampled_by(case["k"], **_kw(case, reduce=np_reduce(case["reduce"])))
+        out = [f"ok {period_of(r)} " + show(r.timestamps, r.data)]
+        seen = []
+
+        def recorder2d(x, axis=None):
+            x = np.array(x, dtype=float)
+            seen.append((x, axis))
+            return np.zeros(x.shape[0])
+
+        s.downsampled_by(case["k"], reduce=recorder2d)
+        if len(seen) == 1 and seen[0][0].ndim == 2 and seen[0][1] in (1, -1):
+            out.append("ok [" + ";".join(",".join(enc_val(v) for v in row) for row in seen[0][0]) + "]")
+        else:
+            out.append(f"reduce-called {len(seen)} times / axis {[a for _, a in seen][:3]}")
+        return out
     if k == "like":
         s = build(case["src"])
         ref = build(case["ref"])
         _warm(lambda: s.downsampled_like(ref, reduce=_other_reduce(case["reduce"])))
         out = []
         try:
-            a, b = s.downsampled_like(ref, reduce=np_reduce(case["reduce"]))
+            a, b = s.downsampled_like(ref, **_kw(case, reduce=np_reduce(case["reduce"])))
             out.append("ok " + show(a.timestamps, a.data) + " " + enc_list(b.timestamps))
         except Exception as e:
             out.append(errname(e))
@@ -678,7 +721,10 @@ def ops(case):
         return ["c04.outside-the-model"]
     if k == "over":
         rg = "[" + ";".join(f"{a},{b}" for a, b in case["ranges"]) + "]"
-        return [f"c04.over {src_tokens(case['src'])} {case['reduce']} {_tok(case['where'], ('center', 'left'))} {rg}"]
+        return [
+            f"c04.over {src_tokens(case['src'])} {case['reduce']} {_tok(case['where'], ('center', 'left'))} {rg}",
+            f"c04.overwins {src_tokens(case['src'])} {_tok(case['where'], ('center', 'left'))} {rg}",
+        ]
     if k in ("to", "toby"):
         # the model converts the frequency itself (targetOfFreq: the same IEEE division and truncation)
         out = [
@@ -689,7 +735,7 @@ def ops(case):
             out.append(f"c04.by {src_tokens(case['src'])} {case['reduce']} {case['k']}")
         return out
     if k == "by":
-        return [f"c04.by {src_tokens(case['src'])} {case['reduce']} {case['k']}"]
+        return [f"c04.by {src_tokens(case['src'])} {case['reduce']} {case['k']}", f"c04.bywins {src_tokens(case['src'])} {case['k']}"]
     if k in ("bylong", "tobylong"):
         src = case["src"]
         wins = "[" + ";".join(f"{a},{b}" for a, b in long_windows(src["n"], case["k"])) + "]"
@@ -1079,11 +1125,38 @@ def oracle(case, ia):
                 f"over: expected one sample per window inside the span with data: {str([(t, str(v)) for t, v in exp])[:300]}, "
                 f"implementation returned {toks[0][:300]}"
             )
+        if len(ia) > 1 and ia[1].startswith("ok "):
+            # what an arbitrary reduce callable is handed: exactly the source samples of every window inside the span
+            samples = src_samples(src)
+            want = []
+            for a_, b_ in ranges:
+                w = [(t, v) for t, v in samples if a_ <= t < b_]
+                if a_ >= span[0] and b_ <= span[1] and w:
+                    want.append(((w[0][0] + w[-1][0]) // 2 if case["where"] == "center" else a_, [v for _, v in w]))
+            body = ia[1][3:][1:-1]
+            rows = [r_.split("|") for r_ in body.split(";")] if body else []
+            have = [(int(t), [fr(v) for v in vs.split(",")] if vs else []) for t, vs in rows]
+            if have != want:
+                return f"over: reduce was handed {str(have)[:300]}, the windows inside the span hold {str(want)[:300]}"
+        elif len(ia) > 1:
+            return f"over: the call with a recording reduce callable gave {ia[1][:100]}"
         return None
     if k == "to":
         return oracle_to(case, ans)[0]
     if k == "by":
-        return oracle_by(case, ans)
+        c1 = oracle_by(case, ans)
+        if c1 or len(ia) < 2 or not ans.startswith("ok"):
+            return c1
+        if not ia[1].startswith("ok "):
+            return f"by: the call with a recording reduce callable gave {ia[1][:100]}"
+        vals = [fr(v) for v in case["src"]["vals"]]
+        kk = case["k"]
+        want = [vals[i * kk : (i + 1) * kk] for i in range(len(vals) // kk)]
+        body = ia[1][3:][1:-1]
+        have = [[fr(v) for v in row.split(",")] for row in body.split(";")] if body else []
+        if have != want:
+            return f"by: reduce(axis=1) was handed rows {str(have)[:300]}, the consecutive blocks are {str(want)[:300]}"
+        return None
     if k == "toby":
         c1 = oracle_to(case, ia[0])[0]
         if c1:
@@ -1542,6 +1615,18 @@ def long_cases(tier, rng):
 
 
 def cases(tier, rng):
+    """every second small-scope / random case of a downsampling method is called with its default arguments left out
+    (reduce=np.mean, where="center", method="safe" are then the library's defaults, not values passed by the harness)"""
+    n = 0
+    for c in _cases(tier, rng):
+        if c.get("stream") in ("small-scope", "random") and c["op"] in ("over", "to", "toby", "by", "like"):
+            n += 1
+            if n % 2 == 0:
+                c["defaults"] = True
+        yield c
+
+
+def _cases(tier, rng):
     quick = tier == "quick"
     r_random = rng.fork("c04-random")  # drawn first: the random stream of a seed does not depend on the other streams
     # ---- corpus: finding inputs and minimised past disagreements
@@ -1957,7 +2042,15 @@ def extra_coverage(results):
                 g = len(parse_samples(toks[0]))
                 n = len(c["src"]["vals"])
                 getitem_sizes["empty result" if g == 0 else "whole source" if g == n else "part of the source"] += 1
+    defaults_used = {"reduce": 0, "where": 0, "method": 0}
+    for r in results:
+        c = r["case"]
+        if c.get("defaults"):
+            defaults_used["reduce"] += c.get("reduce") == "mean"
+            defaults_used["where"] += c.get("where") == "center"
+            defaults_used["method"] += c.get("method") == "safe"
     return {
+        "calls_with_a_default_argument_left_out": defaults_used,
         "like_reference_classes (flag printed by the model = IsolatedGrowth)": like_cls,
         "like_windows_handed_to_reduce": like_windows,
         "frequency_forms_converted_by_the_model": freq_forms,
